@@ -12,7 +12,7 @@ THEOREMS = ["EngineModel.Properties.C04." + t for t in [
     "C04_setter_frame_hot_cue_at", "C04_setter_frame_loop_at", "C04_setter_frame_main_cue",
     "C04_setter_frame_hot_cues", "C04_setter_frame_average_loudness", "C04_setter_frame_key",
     "C04_setter_frame_sample_count", "C04_setter_frame_sample_rate", "C04_setter_frame_beatgrid",
-    "C04_setter_frame_loops_counterexample", "C04_setter_frame_waveform_counterexample",
+    "C04_setter_frame_loops", "C04_setter_frame_waveform",
 ]]
 ASSUMPTIONS = [
     "payload level: compressed bytes are not compared (the harness recovers the payload of the re-encoded blob with "
@@ -31,18 +31,27 @@ MANIFEST = dict(
          "payloads and mutated valid payloads go through the real from_blob -> to_blob (sanitizer build) and through "
          "the Model; outputs must be equal, and the direct oracle compares the library's re-encoded payload with the "
          "input byte for byte (modulo the one flag byte, located by an independent parser). Setter frame: for each of "
-         "the nine read-modify-write setters of the 2.x track (hot_cue_at, loop_at, main_cue, hot_cues, "
-         "average_loudness, key, sample_count, sample_rate, beatgrid) a theorem over the 2.x track lens model states "
+         "the eleven read-modify-write setters of the 2.x track (hot_cue_at, loop_at, main_cue, hot_cues, "
+         "average_loudness, key, sample_count, sample_rate, beatgrid, loops, waveform) a theorem over the 2.x track lens model states "
          "that every other BLOB column's payload is byte-identical and that in the named column only the byte range of "
          "the named field differs (slot setters: pre ++ entry ++ post with the same pre/post; scalar fields: "
          "AgreeOutside a b); tied by planting foreign blobs (0..12 entries, labelled/coloured empty slots, odd flags, "
          "trailing bytes) into the five BLOB columns of real 2.x tracks through the raw connection, calling every "
          "setter through the public API and reading the columns back raw (independent inflate + Spec decode).",
-    note="set_loops / set_waveform rebuild their column and drop foreign extra_data: known finding with _counterexample "
-         "theorems. Compressed bytes are never compared.",
+    note="set_loops / set_waveform used to rebuild their column and drop foreign extra_data (former known finding, repaired "
+         "by fix: bee2c23; now frame theorems C04_setter_frame_loops / _waveform). Compressed bytes are never compared.",
     technique="Lean 4 theorems (generic Exact law of codec combinators) + byte-exact differential run on foreign blobs",
     ref="6/C04")
 TRUSTED_EXTRA = []
+
+
+# model regenerated from the C++ sources + its equality with the hand model (see props/_implgen.py)
+from props import _implgen
+LEAN_MODULES = LEAN_MODULES + _implgen.MODULES_FOR[ID]
+THEOREMS = THEOREMS + _implgen.THEOREMS_FOR[ID]
+ASSUMPTIONS = ASSUMPTIONS + _implgen.ASSUMPTIONS
+TRUSTED_EXTRA = list(globals().get("TRUSTED_EXTRA", [])) + _implgen.TRUSTED_EXTRA
+TRANSLATORS = dict(globals().get("TRANSLATORS", {}), **_implgen.TRANSLATORS)
 
 
 def cues_flag_offset(p):
@@ -293,8 +302,7 @@ def setter_frame_stream(ctx, rng, hist, divergences, violations):
         schema = G.SCHEMAS[(ctx.seed + k) % len(G.SCHEMAS)] if ctx.tier == "quick" else G.SCHEMAS[k % len(G.SCHEMAS)]
         snap = G.gen_snapshot(rng, ctx.tier, 7000 + k, valid_bias=1.0)
         snap["relative_path"] = b"frame/t%d.mp3" % k
-        if snap.get("waveform") and (snap.get("sample_count") is None or snap.get("sample_rate") is None):
-            snap["waveform"] = b""
+        G.storable_waveform(snap)
         if isinstance(snap.get("sample_rate"), str) and snap.get("waveform"):
             snap["sample_rate"] = 44100.0
         sets = ", ".join("%s = X'%s'" % (c, _frame_blob(COLKIND[c], pay[c]).hex()) for c in COLS)
@@ -376,7 +384,7 @@ def judge_frames(scripts, meta, hist, violations):
         if br is None:
             distinct.add((si, li))
             continue
-        sig = KNOWN_REBUILD_SIG if (f in REBUILD_SETTERS and br == "extra") else None
+        sig = None      # (set_loops / set_waveform dropping `extra` was a known finding until fix: bee2c23)
         violations.append({"tag": "oracle", "signature": sig, "header": {
             "kind": "script", "what": "set_%s altered bytes of column %s outside the field it names: %s" % (f, c, br)},
             "body": replay + ["before: " + cd.hexb(old)[:600], "after:  " + cd.hexb(new)[:600]]})
